@@ -13,7 +13,7 @@ import itertools
 import json
 import os
 from concurrent.futures import ThreadPoolExecutor
-from vlib.core import C, Raw, coq, known_for
+from vlib.core import C, Raw, coq
 
 UNIVERSE = ["a", "b", "c", "d", "e", "t", "u", "x"]
 
@@ -27,12 +27,16 @@ FILES = {
     "t.mg": "t(1)@[2024-01-01, 2024-02-01].\nt(2)@[2024-03-01, 2024-04-01].\n",
     "bad.mg": "a(1\n",
     "unsafe.mg": "e(X) :- !a(X).\n",
+    # pass analysis, fail in evaluation after deriving a fact (fix N32): div.mg only over a
+    # loaded a.mg (without a: analysis error), cdiv.mg always
+    "div.mg": "e(3).\nu(Y) :- a(X), Y = fn:div(X, 0).\n",
+    "cdiv.mg": "c(7).\nd(Y) :- c(X), Y = fn:div(X, 0).\n",
 }
-# pathsets that can be loaded successfully while already live (no clause for a new
-# predicate): loading one twice and popping twice is finding N30, so at most once per history
-ONCE = ["x2.mg", "e.mg"]
+# x2.mg (over x.mg) and e.mg add no clause for a new predicate: they load successfully any
+# number of times while live (fix N30)
 PATHSETS = ["a.mg", "b.mg", "c.mg", "x.mg", "t.mg", "a.mg,b.mg", "x.mg,x2.mg", "a.mg,c.mg",
-            "bad.mg", "unsafe.mg", "missing.mg", "a.mg,missing.mg"]
+            "bad.mg", "unsafe.mg", "missing.mg", "a.mg,missing.mg",
+            "x2.mg", "e.mg", "e.mg", "div.mg", "div.mg", "cdiv.mg", "a.mg,div.mg", "e.mg,x2.mg"]
 
 
 # ---------------------------------------------------------------- generators
@@ -75,7 +79,7 @@ def gen_history(rng, maxlen=25):
     n = rng.randint(1, maxlen)
     wd, wl, wp, wq = rng.choice([(50, 20, 18, 12), (35, 35, 25, 5), (65, 10, 20, 5), (40, 15, 40, 5)])
     cmds, kinds = [], []
-    once = set()
+    loaded = []
     for _ in range(n):
         r = rng.randrange(wd + wl + wp + wq)
         if r < wd:
@@ -83,15 +87,14 @@ def gen_history(rng, maxlen=25):
             cmds.append({"op": "define", "text": t})
             kinds.append("define:" + kind)
         elif r < wd + wl:
-            if rng.random() < 0.15:
-                cand = [p for p in ONCE if p not in once]
-                if cand:
-                    p = rng.choice(cand)
-                    once.add(p)
-                    cmds.append({"op": "load", "path": p})
-                    kinds.append("load:once")
-                    continue
+            if loaded and rng.random() < 0.2:
+                # a pathset that this history loaded before (it may still be live)
+                p = rng.choice(loaded)
+                cmds.append({"op": "load", "path": p})
+                kinds.append("load:again")
+                continue
             p = rng.choice(PATHSETS)
+            loaded.append(p)
             cmds.append({"op": "load", "path": p})
             kinds.append("load:" + ("two" if "," in p else "one"))
         elif r < wd + wl + wp:
@@ -108,6 +111,10 @@ ALPHABETS = [
      {"op": "load", "path": "a.mg"}, {"op": "pop"}],
     [{"op": "define", "text": "c(1)."}, {"op": "define", "text": "e(X) :- !c(X)."},
      {"op": "load", "path": "c.mg"}, {"op": "pop"}],
+    # the same pathset live several times (N30), loads failing in evaluation / analysis (N32):
+    # div.mg is rejected by analysis without a.mg and by evaluation over it, a.mg loads once
+    [{"op": "load", "path": "e.mg"}, {"op": "load", "path": "a.mg"},
+     {"op": "load", "path": "div.mg"}, {"op": "pop"}],
 ]
 
 
@@ -223,32 +230,6 @@ def shrink(ck, case):
 
 
 # ----------------------------------------------------------------- the check
-PROBES = {
-    "N30": {"cmds": [{"op": "load", "path": "e.mg"}, {"op": "load", "path": "e.mg"}, {"op": "pop"}, {"op": "pop"}],
-            "what": "N30 loading the same pathset twice (possible when it adds no new predicate, e.g. an empty file) and "
-                    "popping twice dereferences a nil fragment: sourceFragments is keyed by pathset"},
-    "N32": {"cmds": [{"op": "load", "path": "a.mg"}, {"op": "load", "path": "div.mg"}],
-            "files": {"div.mg": "e(3).\nu(Y) :- a(X), Y = fn:div(X, 0).\n"},
-            "what": "N32 a Load whose evaluation fails returns the error but leaves the fragment pushed with partial results"},
-}
-
-
-def probes(ck):
-    for k in known_for("C16"):
-        pr = PROBES.get(k["id"])
-        if not pr:
-            continue
-        case = {"files": dict(FILES, **pr.get("files", {})), "universe": UNIVERSE, "cmds": pr["cmds"]}
-        o = ck.run_go("c16", [case])[0]
-        still = False
-        if k["id"] == "N30":
-            still = "panic" in o
-        elif k["id"] == "N32":
-            still = "out" in o and o["out"]["steps"][-1]["res"] == 3 and "e" in o["out"]["steps"][-1]["obs"]["preds"]
-        if still:
-            ck.known(pr["what"])
-
-
 def load_corpus():
     cases = []
     for path in sorted(glob.glob(os.path.join(os.path.dirname(__file__), "..", "corpus", "C16", "*.json"))):
@@ -326,7 +307,6 @@ def run(ck):
                       "no_longer_checks": "correspondence Run.C16.judge: model Interp/Stack.v vs interpreter/interpreter.go "
                                           "(theorems of Props/C16.v no longer tied to the code)"},
                      "no-failing-input-found")
-    probes(ck)
     # coverage
     kinds, results, shapes = {}, {}, {}
     lens = {}
@@ -341,12 +321,18 @@ def run(ck):
                 results[key] = results.get(key, 0) + 1
     nontrivial = set()
     depth = {}
+    live_twice = 0
     for c, o in zip(cases, outs):
         if "out" not in o:
             continue
         steps = o["out"]["steps"]
         d = max((len(s["live"]) for s in steps), default=0)
         depth[d] = depth.get(d, 0) + 1
+        for s in steps:
+            paths = [c["cmds"][k]["path"] for k in s["live"] if c["cmds"][k]["op"] == "load"]
+            if len(paths) != len(set(paths)):
+                live_twice += 1
+                break
         shrinks = sum(1 for a, b in zip(steps, steps[1:]) if len(b["live"]) < len(a["live"]))
         if d >= 2 and shrinks >= 1:
             nontrivial.add(json.dumps(c["cmds"], sort_keys=True))
@@ -358,10 +344,14 @@ def run(ck):
                    % (ncorpus, nrandom, len(cases) - ncorpus - nrandom),
            "exhaustive": exhaustive,
            "exhaustive_scope": "every history of length 1..6 over each of two 4-command alphabets "
-                               "(define fact, define rule / rejected rule, load, pop): 2 x 5460" if exhaustive else "",
+                               "(define fact, define rule / rejected rule, load, pop) and one of loads only "
+                               "(empty file, declared facts, file failing in evaluation over them, pop): 3 x 5460"
+                               if exhaustive else "",
            "commands": sum(len(c["cmds"]) for c in cases),
            "command_kinds": kinds, "result_classes(op:class 0 ok 1 parse 2 analysis 3 eval 4 unknown)": results,
            "max_live_depth": depth, "history_lengths": lens, "shapes": shapes,
+           "histories_with_a_pathset_live_twice": live_twice,
+           "loads_rejected_in_evaluation": results.get("load:3", 0),
            "oracle_failures": nviol, "model_disagreements": disagreements,
            "samples": [cases[ncorpus]["cmds"][:8], cases[-1]["cmds"][:6]]}
     return ck.finish(cov, assumptions=[
@@ -370,8 +360,7 @@ def run(ck):
         "results observed on fresh Go interpreters (tables), so the engine itself is not checked here (C01)",
         "simple and temporal store are one layered store in the model (they are pushed and popped in lock step)",
         "known-predicate table observed through ParseQuery on a fixed universe of predicate names and Show(all)",
-        "main stream avoids: loading a live pathset twice (N30), files whose evaluation fails (N32), "
-        "a file named interactive-buffer"])
+        "main stream avoids: a file named interactive-buffer"])
 
 
 def replay(ck, path):
@@ -396,13 +385,15 @@ def replay(ck, path):
 META = {
     "text": "Machine-checked theorems (coq/Props/C16.v) about a Gallina model of the interpreter's state machine "
             "(fragment stack, known-predicate table, interactive buffer, layered teeing stores; Define / Load / Pop / "
-            "Query as in interpreter.go after fixes N2 and N5) with parsing, analysis and evaluation as arbitrary "
+            "Query as in interpreter.go after fixes N2, N5, N30, N32) with parsing, analysis and evaluation as arbitrary "
             "functions: after every command history the state equals the state of a fresh interpreter after the live "
-            "commands, pop is exact, a rejected define is a no-op, checkpoints are never written. The model is tied to "
-            "the Go interpreter on every run by command histories (exhaustive to length 6 over two alphabets in the "
+            "commands, pop is exact (also with the same pathset live several times), a rejected define is a no-op, a "
+            "rejected load pushes nothing, checkpoints are never written. The model is tied to "
+            "the Go interpreter on every run by command histories (exhaustive to length 6 over three alphabets in the "
             "thorough tier) whose answers after each command are compared with a fresh interpreter replaying the live "
             "commands and with the model evaluated inside Coq.",
     "note": "Trusted: Coq kernel + vm_compute; model tied to the code by differential replay (sampled; exhaustive for "
-            "short histories over small alphabets); the engine/analysis are abstracted (tables observed from Go); "
-            "known findings N30, N32 avoided by the generator and probed.",
+            "short histories over small alphabets); the engine/analysis are abstracted (tables observed from Go). "
+            "Load drops the interactive definitions before it does anything else, also when it is then rejected "
+            "(documented in the help text); this is modelled, not judged.",
 }
